@@ -46,6 +46,52 @@ fn main() {
             writeln!(w, "lookup {} {} {}", n, e.opname, e.opcode as u32).unwrap();
         }
     }
+    // 2b. the lookups are functions of their argument alone (no answer may depend on earlier lookups): every number asked twice in a
+    // row, then in descending order, then right after a hit and right after a miss, compared with the first ascending sweep
+    {
+        let key = |n: u32| Core::lookup_opcode(n as u16).map(|e| (e.opname, e.opcode as u32));
+        let first: Vec<_> = (0..=65535u32).map(key).collect();
+        let mut report = |how: &str, n: u32, got: Option<(&str, u32)>| {
+            writeln!(w, "impure lookup_opcode {} {} {} {}", how, n, got.map_or("none".to_string(), |g| format!("{}:{}", g.0, g.1)),
+                first[n as usize].map_or("none".to_string(), |g| format!("{}:{}", g.0, g.1))).unwrap();
+        };
+        for n in 0..=65535u32 {
+            let a = key(n);
+            let b = key(n);
+            if a != first[n as usize] { report("again", n, a); }
+            if b != first[n as usize] { report("twice-in-a-row", n, b); }
+        }
+        for n in (0..=65535u32).rev() {
+            let a = key(n);
+            if a != first[n as usize] { report("descending", n, a); }
+        }
+        for n in 0..=65535u32 {
+            key(1);          // a hit (OpUndef)
+            let a = key(n);
+            key(9);          // a miss
+            let b = key(n);
+            if a != first[n as usize] { report("after-a-hit", n, a); }
+            if b != first[n as usize] { report("after-a-miss", n, b); }
+        }
+        for (nm, f) in [("glsl", &(|n: u32| Gl::lookup_opcode(n).map(|e| (e.opname, e.opcode))) as &dyn Fn(u32) -> Option<(&'static str, u32)>),
+                        ("opencl", &(|n: u32| Cl::lookup_opcode(n).map(|e| (e.opname, e.opcode))))] {
+            let first: Vec<_> = (0..4096u32).map(f).collect();
+            for n in 0..4096u32 {
+                let a = f(n);
+                let b = f(n);
+                f(1);
+                let c = f(n);
+                f(4000);
+                let d = f(n);
+                for (how, g) in [("again", a), ("twice-in-a-row", b), ("after-a-hit", c), ("after-a-miss", d)] {
+                    if g != first[n as usize] {
+                        writeln!(w, "impure lookup_{} {} {} {} {}", nm, how, n, g.map_or("none".to_string(), |g| format!("{}:{}", g.0, g.1)),
+                            first[n as usize].map_or("none".to_string(), |g| format!("{}:{}", g.0, g.1))).unwrap();
+                    }
+                }
+            }
+        }
+    }
     for e in Core::iter() {
         let op = e.opcode;
         match catch(move || Core::get(op)) {
